@@ -278,9 +278,9 @@ func descDepth(v ssa.Value, depth int) string {
 			return x.Op.String() + descDepth(x.X, depth-1)
 		}
 	case *ssa.IndexAddr:
-		return descDepth(x.X, depth) + "[" + descDepth(x.Index, depth-1) + "]"
+		return descDepth(x.X, depth) + "[" + descIndex(x.Index) + "]"
 	case *ssa.Index:
-		return descDepth(x.X, depth) + "[" + descDepth(x.Index, depth-1) + "]"
+		return descDepth(x.X, depth) + "[" + descIndex(x.Index) + "]"
 	case *ssa.Lookup:
 		return descDepth(x.X, depth) + "[" + descDepth(x.Index, depth-1) + "]"
 	case *ssa.Extract:
@@ -370,6 +370,17 @@ func descDepth(v ssa.Value, depth int) string {
 		return "next(" + descDepth(rangeOperand(x), depth-1) + ")"
 	}
 	return fmt.Sprintf("%T", v)
+}
+
+// descIndex renders a slice/array/string index: constants by value, anything
+// else by the identity of the SSA value ("@t7"), which is independent of the
+// nesting depth at which the expression is rendered and distinguishes two
+// induction variables of the same shape.
+func descIndex(v ssa.Value) string {
+	if c, ok := v.(*ssa.Const); ok {
+		return "const:" + constString(c)
+	}
+	return "@" + v.Name()
 }
 
 func rangeOperand(n *ssa.Next) ssa.Value {
